@@ -7,6 +7,19 @@ From FEC Require Import Generated.RtcmConsts Generated.Crc24qTable Base.ListX Ba
 Import ListNotations.
 Open Scope N_scope.
 
+(* The constants regenerated from rtcm_framer.cc are the ones of the RTCM 3 transport layer the SPEC is written
+   with; if the source changes one of them this stops checking. *)
+Lemma rtcm_consts_agree :
+  RTCM_PREAMBLE = SPEC_PREAMBLE /\ RTCM_HEADER_BYTES = SPEC_HEADER_BYTES /\ RTCM_CRC_BYTES = SPEC_CRC_BYTES /\
+  RTCM_MAX_PAYLOAD = SPEC_MAX_PAYLOAD /\ RTCM_LEN_MASK = SPEC_LEN_MASK /\ RTCM_TYPE_SHIFT = SPEC_TYPE_SHIFT /\
+  RTCM_CRC_INIT = 0 /\ RTCM_CRC_MASK = 16777215 /\ RTCM_CLAMP = 2147483647 /\ RTCM_ALIGN_MASK = 3.
+Proof. repeat split; reflexivity. Qed.
+
+Ltac spec_consts :=
+  change SPEC_PREAMBLE with RTCM_PREAMBLE in *; change SPEC_HEADER_BYTES with RTCM_HEADER_BYTES in *;
+  change SPEC_CRC_BYTES with RTCM_CRC_BYTES in *; change SPEC_MAX_PAYLOAD with RTCM_MAX_PAYLOAD in *;
+  change SPEC_LEN_MASK with RTCM_LEN_MASK in *; change SPEC_TYPE_SHIFT with RTCM_TYPE_SHIFT in *.
+
 Definition rtcm_min_ok (cap x : N) : Prop := x = cap /\ 3 <= cap.
 Notation rwfc cap := (wfc rstate rx (rtcm_min_ok cap)).
 
@@ -24,15 +37,15 @@ Definition rtcm_inv (cap : N) (c : rcore) (r : list N) : Prop :=
 
 Lemma rtcm_len_le b1 b2 : rtcm_len b1 b2 <= 1023.
 Proof.
-  unfold rtcm_len. change RTCM_LEN_MASK with (N.ones 10). rewrite N.land_ones.
+  unfold rtcm_len. change SPEC_LEN_MASK with (N.ones 10). rewrite N.land_ones.
   pose proof (N.mod_lt (N.lor (N.shiftl b1 8) b2) (2 ^ 10)). lia.
 Qed.
 
 Lemma R_nonsync cap b t : b <> RTCM_PREAMBLE -> judge_rtcm cap (b :: t) = Reject.
-Proof. intros H. unfold judge_rtcm. destruct (N.eqb_spec b RTCM_PREAMBLE); [contradiction|reflexivity]. Qed.
+Proof. intros H. unfold judge_rtcm; spec_consts. destruct (N.eqb_spec b RTCM_PREAMBLE); [contradiction|reflexivity]. Qed.
 
 Lemma judge_more_head cap b t : judge_rtcm cap (b :: t) = More -> b = RTCM_PREAMBLE.
-Proof. unfold judge_rtcm. destruct (N.eqb_spec b RTCM_PREAMBLE); [auto|discriminate]. Qed.
+Proof. unfold judge_rtcm; spec_consts. destruct (N.eqb_spec b RTCM_PREAMBLE); [auto|discriminate]. Qed.
 
 Lemma R_inv_nil cap c : rwfc cap c -> r_is_sync (c_state c) = true -> c_next c = 0 -> rtcm_inv cap c [].
 Proof.
@@ -92,7 +105,7 @@ Lemma judge_rtcm_long cap b0 l' : (3 <= length (b0 :: l'))%nat -> b0 = RTCM_PREA
      if Nat.ltb (length l) size then More else
      if N.eqb (crc24q (firstn (size - 3) l)) (be (sub l (size - 3) 3)) then Accept size else Reject).
 Proof.
-  intros H ->. unfold judge_rtcm. rewrite N.eqb_refl. cbn [negb].
+  intros H ->. unfold judge_rtcm; spec_consts. rewrite N.eqb_refl. cbn [negb].
   assert (Nat.ltb (length (RTCM_PREAMBLE :: l')) (N.to_nat RTCM_HEADER_BYTES) = false) as ->
     by (apply Nat.ltb_ge; change (N.to_nat RTCM_HEADER_BYTES) with 3%nat; exact H).
   reflexivity.
@@ -164,11 +177,11 @@ Proof.
       change 1 with (N.of_nat 1) at 1. rewrite (rd_ok (RTCM_PREAMBLE :: b1 :: b :: t) 1 b1 eq_refl). cbn [bind].
       change (1 + 1) with (N.of_nat 2). rewrite (rd_ok (RTCM_PREAMBLE :: b1 :: b :: t) 2 b eq_refl). cbn [bind].
       cbn [c_size set_size c_cap c_buf c_state c_next c_x set_next].
-      rewrite swap16_mask. fold (rtcm_len b1 b).
+      rewrite swap16_mask. change RTCM_LEN_MASK with SPEC_LEN_MASK. fold (rtcm_len b1 b).
       pose proof (rtcm_len_le b1 b) as Hle.
-      unfold judge_rtcm. cbn [app length nth]. rewrite N.eqb_refl. cbn [negb].
+      unfold judge_rtcm; spec_consts. cbn [app length nth]. rewrite N.eqb_refl. cbn [negb].
       change (Nat.ltb 3 (N.to_nat RTCM_HEADER_BYTES)) with false. cbn iota.
-      unfold RTCM_OVERHEAD_BYTES, RTCM_MAX_SIZE_BYTES, RTCM_OVERHEAD.
+      unfold RTCM_OVERHEAD_BYTES, RTCM_MAX_SIZE_BYTES, RTCM_OVERHEAD. spec_consts.
       change (RTCM_HEADER_BYTES + RTCM_CRC_BYTES) with 6. change (N.to_nat 6) with 6%nat.
       change (RTCM_HEADER_BYTES + RTCM_MAX_PAYLOAD + RTCM_CRC_BYTES) with 1029.
       set (len := rtcm_len b1 b) in *.
@@ -184,9 +197,9 @@ Proof.
         unfold rtcm_inv. cbn [c_next set_state set_size set_next c_buf c_state c_size length nth].
         split; [reflexivity|]. split; [reflexivity|].
         split.
-        { unfold judge_rtcm. cbn [app length nth]. rewrite N.eqb_refl. cbn [negb].
+        { unfold judge_rtcm; spec_consts. cbn [app length nth]. rewrite N.eqb_refl. cbn [negb].
           change (Nat.ltb 3 (N.to_nat RTCM_HEADER_BYTES)) with false. cbn iota.
-          unfold RTCM_OVERHEAD. change (RTCM_HEADER_BYTES + RTCM_CRC_BYTES) with 6. change (N.to_nat 6) with 6%nat.
+          unfold RTCM_OVERHEAD. spec_consts. change (RTCM_HEADER_BYTES + RTCM_CRC_BYTES) with 6. change (N.to_nat 6) with 6%nat.
           change (RTCM_HEADER_BYTES + RTCM_MAX_PAYLOAD + RTCM_CRC_BYTES) with 1029. fold len.
           replace (N.of_nat (N.to_nat len + 6)) with (len + 6) by lia. rewrite E2, E3, E4. reflexivity. }
         split; [repeat (constructor; try assumption)|].
@@ -247,7 +260,7 @@ Proof.
         assert (Hf : firstn (S k) (r ++ b :: t) = r ++ [b]).
         { change (b :: t) with ([b] ++ t). rewrite app_assoc. rewrite <- (firstn_app_exact (r ++ [b]) t) at 2.
           f_equal. rewrite app_length. cbn. fold k. lia. }
-        rewrite Hf. f_equal. unfold rtcm_msg_number.
+        rewrite Hf. f_equal. unfold rtcm_msg_number. change SPEC_TYPE_SHIFT with RTCM_TYPE_SHIFT.
         rewrite !app_nth1 by (fold k; lia).
         rewrite N.mod_small; [reflexivity|]. apply byte_pair_lt; apply forall_nth; try exact Hrb; fold k; lia.
       * eexists _, _, _. split; [reflexivity|]. cbn [c_buf set_state set_x c_cap inc_err]. split; [reflexivity|]. split; [reflexivity|].
